@@ -207,7 +207,7 @@ func TestC20(t *testing.T) {
 			}
 			c.Ev.MarkExhaustive(fmt.Sprintf("every session of <= %d lines over the %d-line pool", maxLen, len(c20Pool)))
 		})
-		n := 150
+		n := 300
 		if c.Thorough {
 			n = 2500
 		}
